@@ -70,6 +70,10 @@ CHECKS = {
    text="Complete enumeration of every C function x every single invalid-argument class (and the valid call), complete enumeration of readlink body lengths 1..64 x buffer sizes 0..len+3 and NULL with canary pages and a PROT_NONE guard page flush behind the buffer; sampled long bodies / sizes and multi-invalid calls. Checks error id range, errno, no side effects, descriptor table.",
    note="Each case in its own process (a crash is a verdict); procfs link lengths start above the sandbox prefix.",
    technique="exhaustive enumeration plus property-based sampling at the C ABI with canary/guard-page oracles"),
+ "C18": dict(level="exploration", ref="DESIGN.md §3 C18",
+   text="Finite static part enumerated completely (symbols of the freshly built static library vs header prototypes, normalised signatures header vs Rust definitions, struct layout and enum constants as gcc sees the header vs the Rust source, every call site of the Go and Python bindings); generated part: hypothesis-generated scripts of C calls executed by a C shim compiled against the committed header and by the Rust API, outputs and resulting trees compared.",
+   note="Separate Python driver (python3-vt + hypothesis, gcc, nm) so that it works even if an export is renamed; Go/cffi tool-chains absent, bindings checked textually; x86-64 type widths.",
+   technique="exhaustive cross-checking of four ABI descriptions plus hypothesis-generated differential testing through a C shim"),
 }
 NOT_YET = {}
 ALL = ["C%02d" % i for i in range(1, 19)]
@@ -85,7 +89,7 @@ def main():
           "thorough_cmd": "./bin/check %s thorough" % pid,
           "evidence_file": "/verif/evidence/%s.json" % pid,
           "replay_cmd_template": "./bin/check %s quick --replay {path}" % pid,
-          "engine": "pv",
+          "engine": ("c18" if pid == "C18" else "pv"),
           "level_claimed": {"category": c["level"], "text": c["text"], "design_ref": c["ref"]},
           "level_note": c["note"],
           "technique": c["technique"],
@@ -93,9 +97,9 @@ def main():
     notapp = [{"property_id": p, "reason": "check not built yet in this session (work in progress; see DESIGN.md §6 build order)"} for p in ALL if p not in CHECKS]
     m = {
       "version": 1,
-      "setup_cmd": "cd /verif/harness && CARGO_NET_OFFLINE=true cargo build --release --offline",
+      "setup_cmd": "cd /verif/harness && CARGO_NET_OFFLINE=true cargo build --release --offline && cd /verif/c18/ref && CARGO_NET_OFFLINE=true cargo build --release --offline",
       "hooks": {"guard": "none", "enable": "no source hooks: kernel-feature selection, fault injection and scheduling are done from outside with a seccomp user-notification gate", "baseline_off_cmd": "/verif/bin/repo-tests", "source_commits": [], "add_only": True},
-      "engines": [{"name": "pv", "path": "/verif/harness", "serves_properties": [c["property_id"] for c in checks], "kind_free_text": "proptest-driven generated search from a binary; fork per case; seccomp user-notification syscall gate (observe / ENOSYS kcfg / fault injection / attacker placement / thread scheduling); kernel openat2 as differential oracle"}],
+      "engines": [{"name": "c18", "path": "/verif/c18", "serves_properties": ["C18"], "kind_free_text": "python3-vt driver (hypothesis) + gcc-compiled C shim against include/pathrs.h + Rust-API reference executor"}, {"name": "pv", "path": "/verif/harness", "serves_properties": [c["property_id"] for c in checks], "kind_free_text": "proptest-driven generated search from a binary; fork per case; seccomp user-notification syscall gate (observe / ENOSYS kcfg / fault injection / attacker placement / thread scheduling); kernel openat2 as differential oracle"}],
       "checks": checks,
       "not_applicable": notapp,
       "notes": "Exit codes of every command: 0 held on everything explored (KNOWN-FINDING lines possible), 1 VIOLATION line(s), 2 harness/environment problem (nothing claimed). VERIF_SEED selects the PRNG seed (default 1). Known findings: /verif/known_findings.json.",
